@@ -402,6 +402,12 @@ class Fn:
                 return "(sqrt O %s)" % args[0]
             if base == "fabs":
                 return "(abs O %s)" % args[0]
+            if fname in ("__builtin_isinf_sign", "__builtin_isinf", "isinf"):
+                # classification without a NumOps primitive: x is infinite iff x + x == x and x != 0 (the definition
+                # a/math.h itself falls back to); only ever used as a condition
+                return "(andb (eqb O (add O %s %s) %s) (negb (eqb O %s (ofZ O 0))))" % (args[0], args[0], args[0], args[0])
+            if fname in ("__builtin_isnan", "isnan"):
+                return "(negb (eqb O %s %s))" % (args[0], args[0])
             if fname in self.translated and self.translated[fname]["scalar_only"] and not self.translated[fname].get("externs"):
                 return "(gen_%s O %s)" % (fname, " ".join(args))
             if fname in self.translated:
